@@ -257,6 +257,19 @@ class Sim:
         elif kind == 'write':
             self.app_write(ev[1])
             g.append('w')
+        elif kind == 'failwrite':
+            # an operation that fails locally (an argument pamqp cannot encode): nothing reaches the wire, so it is no
+            # outbound traffic - no model event at all
+            w0 = len(self.wire_out)
+            try:
+                if ev[1] <= 1:
+                    self.conn.write_frame(1, spec.Queue.Declare(queue='q', arguments={'x': object()}))
+                else:
+                    self.conn.write_frames(1, [spec.Basic.Ack(delivery_tag=1), spec.Queue.Declare(queue='q', arguments={'x': object()})])
+            except TypeError:
+                pass
+            if len(self.wire_out) != w0:
+                g.append('w')      # (something was written after all: let the model know)
         elif kind == 'start':
             lst = [] if ev[1] else None
             if lst is not None:
@@ -641,6 +654,69 @@ def gen_reopen_burst(rng, T):
     return evs
 
 
+def gen_failing_writes(rng, T):
+    """an idle open connection on which the application keeps attempting operations that fail locally (nothing is
+    written): heartbeats must go out as if nothing had been attempted"""
+    half = max(T, 1)
+    evs = [('open',)]
+    for _ in range(rng.randint(6, 14)):
+        evs.append(('adv', max(1, half * rng.choice([3, 5, 7]) // 10)))
+        evs.append(('failwrite', rng.choice([1, 2])))
+        if rng.random() < 0.3:
+            evs.append(('bytes', inbound_frame(rng).hex()))
+    evs.append(('adv', 2 * half))
+    return evs
+
+
+def heartbeat_next_to_waiting_caller(rep, T):
+    """While a thread sits in Connection.channel() waiting for a slow Channel.OpenOk (it holds the connection lock for the
+    whole round trip) the heartbeat timer comes due: the check must run and the heartbeat frame must go out - the client may
+    not leave the wire silent just because one caller waits for the broker.  Two real threads, no schedule exploration."""
+    import threading
+    sim = Sim(T, inject=False)
+    sim.do(('open',))
+    conn = sim.conn
+    res = {}
+
+    def opener():
+        try:
+            res['channel'] = conn.channel(rpc_timeout=5)
+        except Exception as why:   # noqa
+            res['error'] = repr(why)
+    x = threading.Thread(target=opener, daemon=True)
+    x.start()
+    for _ in range(400):
+        if any(b'\x00\x14\x00\x0a' in d for _, d in sim.wire_out):      # Channel.Open (class 20, method 10) is on the wire
+            break
+        threading.Event().wait(0.005)
+    hb_before = sum(1 for _, d in sim.wire_out if d == HB_BYTES)
+    # the heartbeat interval passes without any write: the timer fires in its own thread
+    timer = min(sim.timers, key=lambda t: (t.deadline, t.id)) if sim.timers else None
+    replay = {'kind': 'waiting-caller', 'T': T}
+    if timer is None:
+        rep.violation('C12/no-timer-armed', 'open connection with T=%s has no heartbeat timer armed' % T, replay)
+    else:
+        sim.now = timer.deadline
+        sim.timers.remove(timer)
+        hb = sim.hb
+        hb._writes_since_check = 0           # nothing was sent during the interval that just passed
+        y = threading.Thread(target=timer.function, daemon=True)
+        y.start()
+        y.join(1.5)
+        sent = sum(1 for _, d in sim.wire_out if d == HB_BYTES) - hb_before
+        if y.is_alive() or sent < 1:
+            rep.violation('C12/heartbeat-held-up-by-waiting-caller',
+                          'Connection.channel() was waiting for Channel.OpenOk when the heartbeat interval (T=%s) ended with nothing sent: '
+                          'the timer thread %s and %d heartbeat frames went out' % (T, 'is still blocked after 1.5 s' if y.is_alive() else 'returned', sent), replay)
+    # let the caller finish
+    sim.deliver(pframe.marshal(spec.Channel.OpenOk(), 1))
+    x.join(6)
+    for t in list(sim.timers):
+        t.cancel()
+    rep.case(('waiting-caller', T), True, sample=replay)
+    rep.count('kind', 'waiting-caller')
+
+
 ALPHABET = [('bytes', HB_BYTES.hex()), ('write', 1), ('tick',), ('stop',), ('start', True)]
 
 
@@ -780,6 +856,13 @@ def check(rep):
             evs = gen_reopen_burst(rng, T)
             sim, projs = run_history(T, evs, 0, False)
             record(T, [list(e) for e in evs], sim, projs, 0, False, 'reopen-burst')
+        for k in range(20 if thorough else 4):
+            evs = gen_failing_writes(rng, T)
+            sim, projs = run_history(T, evs, 0, False)
+            record(T, [list(e) for e in evs], sim, projs, 0, False, 'failing-writes')
+
+    for T in (2, 10, 60):
+        heartbeat_next_to_waiting_caller(rep, T)
 
     # interval kernel
     for T in TS + [None, -1, -7, 5, 7]:
@@ -811,6 +894,11 @@ def check(rep):
 
 
 def replay(data):
+    if data.get('replay', {}).get('kind') == 'waiting-caller':
+        rep = common.Report('C12', 'quick')
+        heartbeat_next_to_waiting_caller(rep, data['replay']['T'])
+        print('VIOLATION reproduced' if rep.violations else 'property holds on this input')
+        return 1 if rep.violations else 0
     r = data['replay']
     evs = [tuple(e) for e in r['events']]
     sim, projs = run_history(r['T'], evs, r.get('inj_seed', 0), r.get('inject', False))
